@@ -360,7 +360,7 @@ fn gen_script(rng: &mut Rng, len: usize, max_lines: usize) -> Vec<String> {
                     75..=82 => (len + rng.usize(1, 3)).to_string(),
                     83..=86 => "99999999999999999999999999".to_string(),
                     87..=90 => "-1".to_string(),
-                    91..=93 => format!("+{}", rng.usize(0, len + 1)),
+                    91..=93 => "0x1".to_string(),
                     94..=96 => "x".to_string(),
                     _ => "3x".to_string(),
                 };
